@@ -27,6 +27,9 @@ from concretiser.fock import Rep, max_shift, compare_on_interior  # noqa: E402
 
 failures = []
 cases = 0
+import os  # noqa: E402
+THOROUGH = os.environ.get("VERIF_TIER", "quick") == "thorough"
+SEED_OFF = (1000 + 7 * int(os.environ.get("VERIF_SEED", "0") or 0)) if THOROUGH else 0
 
 
 def fail(section, what, **kw):
@@ -77,8 +80,8 @@ def section_algebra():
     for layout, D in (([a, c, d], 7), ([c, d, e], 2), ([a, l, s, c], 6), ([s, c, d], 2), ([a], 9), ([l, c], 7)):
         ops = sort_ops(layout)
         rep = Rep(ops, D=D)
-        rnd = random.Random(len(ops) * 100 + D)
-        for trial in range(12):
+        rnd = random.Random(len(ops) * 100 + D + SEED_OFF)
+        for trial in range(12 * (3 if THOROUGH else 1)):
             x, y, z = rand_nof(rnd, ops), rand_nof(rnd, ops), rand_nof(rnd, ops, 1)
             cases += 1
             m = max_shift(x, y, z)
